@@ -282,10 +282,18 @@ def coq_mismatches(requires, defs, fn, cases, tag, eqb=None, shard=300):
 
 
 def load_known():
+    """known_findings.json (hand-written groups) + findings/<pid>.json (member lists written by the
+    maintenance command harness/triage.py, reviewed and committed; never written by a check)."""
     p = os.path.join(VERIF, "known_findings.json")
     if not os.path.exists(p):
         return {"findings": [], "fixed": []}
-    return json.load(open(p, encoding="utf-8"))
+    k = json.load(open(p, encoding="utf-8"))
+    fd = os.path.join(VERIF, "findings")
+    if os.path.isdir(fd):
+        for fn in sorted(os.listdir(fd)):
+            if fn.endswith(".json"):
+                k["findings"] += json.load(open(os.path.join(fd, fn), encoding="utf-8")).get("findings", [])
+    return k
 
 
 def key_of(inp) -> str:
@@ -322,6 +330,7 @@ class Ctx:
             for m in g.get("members", []):
                 self.known_keys[key_of([g.get("unit"), m])] = g
         self.known_hit: dict[str, int] = {}
+        self.triage: list[dict] = []
 
     # ---- proof part
     def prove(self, props_file, needs):
@@ -375,10 +384,13 @@ class Ctx:
             else:
                 u[k] = v
 
-    def violation(self, unit, inp, what, extra=None):
-        """A concrete failing input for the property (on the implementation)."""
+    def violation(self, unit, inp, what, extra=None, group=None):
+        """A concrete failing input for the property (on the implementation).
+        group: signature used only by the maintenance command triage.py to sort findings into groups."""
         k = key_of([unit, inp])
         g = self.known_keys.get(k)
+        if os.environ.get("VERIF_TRIAGE"):
+            self.triage.append({"unit": unit, "input": inp, "what": what, "group": group or unit, "known": g["id"] if g else None})
         if g is not None:
             self.known_hit[g["id"]] = self.known_hit.get(g["id"], 0) + 1
             return False
@@ -451,6 +463,8 @@ class Ctx:
         }
         os.makedirs(EVID, exist_ok=True)
         json.dump(ev, open(os.path.join(EVID, f"{self.pid}.json"), "w"), indent=1, ensure_ascii=True, default=str)
+        if os.environ.get("VERIF_TRIAGE"):
+            json.dump(self.triage, open(os.environ["VERIF_TRIAGE"], "w"), ensure_ascii=True)
         for l in lines:
             print(l)
         bad = bool(self.violations or self.breaks)
